@@ -99,8 +99,12 @@ static void __attribute__((noinline)) work(uint64_t seed, int rounds, struct Res
   r->digest = h; r->cell = (int64_t)h;
 }
 
+static atomic_int handoff_ok[MAXT];      /* child i found the value its parent had put into its thread-local storage before the start */
 static var thread_main(var args) {
-  int idx = (int)c_int(get(args, $I(0))); uint64_t seed = (uint64_t)c_int(get(args, $I(1))); int rounds = (int)c_int(get(args, $I(2)));
+  int idx = (int)c_int(get(args, $I(0)));
+  { volatile int ok = 0;
+    try { struct TProbe* hp = get(current(Thread), $S("handoff")); ok = (hp->canary == 0x7470726f6265LL && hp->val == 5000 + idx) ? 1 : 0; } catch (e) { ok = -1; }
+    atomic_store(&handoff_ok[idx], ok); } uint64_t seed = (uint64_t)c_int(get(args, $I(1))); int rounds = (int)c_int(get(args, $I(2)));
   my_idx = idx;
   work(seed, rounds, &res_thr[idx], 1, idx);
   for (int i = 0; i < 40; i++) { var g = new(TProbe, $I(SLOW_MARK)); (void)g; }      /* left to the thread's teardown */
@@ -145,6 +149,10 @@ int main(int argc, char** argv) {
       static var a_idx[MAXT], a_seed[MAXT], a_rounds;
       if (!a_rounds) a_rounds = new_root(Int, $I(0));
       ((struct Int*)a_rounds)->val = rounds;
+      /* state handed to a thread before it starts: the parent puts a value into the (not yet running) thread's storage, keeps
+         no other reference, and collects; the thread must find it intact */
+      for (int i = 0; i < k; i++) { atomic_store(&handoff_ok[i], 0); set(th[i], $S("handoff"), new(TProbe, $I(5000 + i))); }
+      scrub(); GC_Mark(current(GC)); GC_Sweep(current(GC));
       for (int i = 0; i < k; i++) {
         if (!a_idx[i]) { a_idx[i] = new_root(Int, $I(i)); a_seed[i] = new_root(Int, $I(0)); }
         ((struct Int*)a_seed[i])->val = (int64_t)(seed + (uint64_t)i);
@@ -162,7 +170,7 @@ int main(int argc, char** argv) {
       for (int i = 0; i < k; i++) {
         ev_begin("thread"); ev_int("t", i); ev_limbs("digest", res_thr[i].digest); ev_limbs("alone", res_alone[i].digest);
         ev_int("ended", res_thr[i].ended); ev_int("joined", joined[i]); ev_limbs("cell", (uint64_t)res_thr[i].cell); ev_limbs("seen", (uint64_t)seen[i]);
-        ev_int("liveatjoin", liveatjoin[i]); ev_int("ncs", res_thr[i].ncs); ev_ints("tin", (long long*)res_thr[i].cs_in, 0); ev_end();
+        ev_int("liveatjoin", liveatjoin[i]); ev_int("handoff", atomic_load(&handoff_ok[i])); ev_int("ncs", res_thr[i].ncs); ev_ints("tin", (long long*)res_thr[i].cs_in, 0); ev_end();
         for (int c = 0; c < res_thr[i].ncs; c++) { ev_begin("cs"); ev_int("t", i); ev_int("tin", res_thr[i].cs_in[c]); ev_int("tout", res_thr[i].cs_out[c]); ev_end(); total_cs++; }
       }
       ev_begin("summary"); ev_int("k", k); ev_int("plain", shared_plain); ev_int("sections", total_cs); ev_int("foreign", atomic_load(&foreign_retire));
